@@ -153,6 +153,7 @@ be_pair_transfer(struct bufferevent *src, struct bufferevent *dst,
 {
 	size_t dst_size;
 	size_t n;
+	size_t src_size = evbuffer_get_length(src->output);
 
 	evbuffer_unfreeze(src->output, 1);
 	evbuffer_unfreeze(dst->input, 0);
@@ -173,13 +174,22 @@ be_pair_transfer(struct bufferevent *src, struct bufferevent *dst,
 		evbuffer_add_buffer(dst->input, src->output);
 	}
 
+	/* Count what really moved (n may be just the room below the mark). */
+	n = src_size - evbuffer_get_length(src->output);
 	if (n) {
-		BEV_RESET_GENERIC_READ_TIMEOUT(dst);
+		/* dst has read and src has written: restart their timeouts,
+		 * but only where the direction is actually running (a flush
+		 * moves data even when it is not). */
+		if ((dst->enabled & EV_READ) &&
+		    !BEV_UPCAST(dst)->read_suspended)
+			BEV_RESET_GENERIC_READ_TIMEOUT(dst);
 
-		if (evbuffer_get_length(dst->output))
-			BEV_RESET_GENERIC_WRITE_TIMEOUT(dst);
+		if ((src->enabled & EV_WRITE) &&
+		    !BEV_UPCAST(src)->write_suspended &&
+		    evbuffer_get_length(src->output))
+			BEV_RESET_GENERIC_WRITE_TIMEOUT(src);
 		else
-			BEV_DEL_GENERIC_WRITE_TIMEOUT(dst);
+			BEV_DEL_GENERIC_WRITE_TIMEOUT(src);
 	}
 
 	bufferevent_trigger_nolock_(dst, EV_READ, 0);
@@ -214,6 +224,14 @@ be_pair_outbuf_cb(struct evbuffer *outbuf,
 		if (be_pair_wants_to_talk(bev_pair, partner)) {
 			be_pair_transfer(downcast(bev_pair), downcast(partner), 0);
 		}
+	}
+	if (info->n_added && info->orig_size == 0 &&
+	    evbuffer_get_length(outbuf) &&
+	    (downcast(bev_pair)->enabled & EV_WRITE) &&
+	    !bev_pair->bev.write_suspended) {
+		/* The output buffer just became non-empty and nobody took
+		 * the data: the write timeout starts running now. */
+		BEV_RESET_GENERIC_WRITE_TIMEOUT(downcast(bev_pair));
 	}
 
 	decref_and_unlock(downcast(bev_pair));
